@@ -65,3 +65,319 @@ package reftable
 //@   nopanic
 //@   modifies l.ALLFIELDS
 //@   ensures ok ==> 0 <= n && n <= len(buf)
+
+// ---------------------------------------------------------------------------------------------
+// block.go: reading blocks
+// ---------------------------------------------------------------------------------------------
+
+//@ spec wfBR(br *blockReader) bool = br != nil && br.headerOff + 4 <= len(br.block) && len(br.block) < 16777216 && br.headerOff <= 28 && len(br.restartBytes) == 3*br.restartCount + 2 && (br.hashSize == 20 || br.hashSize == 32) && br.fullBlockSize > 0
+//@ spec typeOK(br *blockReader) bool = br.block[br.headerOff] == 'g' || br.block[br.headerOff] == 'i' || br.block[br.headerOff] == 'r' || br.block[br.headerOff] == 'o'
+//@ spec wfBI(bi *blockIter) bool = bi != nil && wfBR(bi.br)
+
+//@ func isBlockType
+//@   props C18
+//@   pure
+//@   ensures result == (typ == 'g' || typ == 'i' || typ == 'r' || typ == 'o')
+
+//@ func getU24
+//@   props C18 C14
+//@   requires len(in) >= 3
+//@   pure
+//@   nopanic
+//@   ensures result == in[0]*65536 + in[1]*256 + in[2]
+//@   ensures result < 16777216
+
+//@ func newRecord
+//@   props C18
+//@   requires key == ""
+//@   nopanic
+//@   ensures (typ == 'g' || typ == 'i' || typ == 'r' || typ == 'o') ==> result != nil && fresh(asptr(result, *RefRecord))
+//@   ensures typ == 'g' ==> istype(result, *LogRecord)
+//@   ensures typ == 'r' ==> istype(result, *RefRecord)
+//@   ensures typ == 'o' ==> istype(result, *objRecord)
+//@   ensures typ == 'i' ==> istype(result, *indexRecord)
+//@   modifies nothing
+
+//@ func newBlockReader
+//@   props C18
+//@   requires hashSize == 20 || hashSize == 32
+//@   requires headerOff <= 28 && len(block) < 4294967296
+//@   nopanic
+//@   modifies buflen, bufdata
+//@   ensures result1 == nil ==> result0 != nil && fresh(result0) && result0.headerOff == headerOff
+//@   ensures result1 == nil ==> result0.headerOff + 4 <= len(result0.block) && len(result0.block) < 16777216
+//@   ensures result1 == nil ==> len(result0.restartBytes) == 3*result0.restartCount + 2
+//@   ensures result1 == nil ==> result0.fullBlockSize > 0
+//@   ensures result1 == nil ==> wfBR(result0)
+//@   ensures result1 == nil ==> typeOK(result0)
+//@   ensures result1 == nil ==> result0.block[headerOff] == old(block[headerOff]) && len(block) >= headerOff + 4
+//@   ensures result1 != nil ==> result0 == nil
+
+//@ func (*blockReader).getType
+//@   props C18
+//@   requires wfBR(br)
+//@   pure
+//@   nopanic
+//@   ensures result == br.block[br.headerOff]
+
+//@ func (*blockReader).restartOffset
+//@   props C18
+//@   requires wfBR(br) && 0 <= i && i < br.restartCount
+//@   pure
+//@   nopanic
+//@   ensures result < 16777216
+
+//@ func (*blockReader).start
+//@   props C18
+//@   requires wfBR(br) && bi != nil
+//@   nopanic
+//@   modifies bi.ALLFIELDS
+//@   ensures bi.br == br && bi.nextOffset == br.headerOff + 4 && bi.lastKey == ""
+
+//@ func (*blockIter).Next
+//@   props C18
+//@   requires wfBI(bi) && iref(r) != 0
+//@   requires istype(r, *RefRecord) || istype(r, *LogRecord) || istype(r, *objRecord) || istype(r, *indexRecord)
+//@   nopanic
+//@   modifies bi.lastKey, bi.nextOffset, r
+//@   ensures result0 ==> result1 == nil && bi.nextOffset > old(bi.nextOffset) && old(bi.nextOffset) < len(bi.br.block)
+//@   ensures !result0 ==> bi.nextOffset == old(bi.nextOffset)
+
+//@ func (*blockReader).seek
+//@   props C18
+//@   requires wfBR(br) && typeOK(br)
+//@   nopanic
+//@   modifies nothing
+//@   ensures result1 == nil ==> result0 != nil && fresh(result0) && result0.br == br
+//@   loop 1 invariant it.br == br && wfBR(br) && allocated(br) && fresh(it)
+//@   loop 1 decreases len(br.block) + 1 - it.nextOffset
+
+//@ func (*blockIter).seek
+//@   props C18
+//@   requires wfBI(bi) && typeOK(bi.br)
+//@   nopanic
+//@   modifies bi.ALLFIELDS
+//@   ensures result == nil ==> bi.br == old(bi.br)
+
+// ---------------------------------------------------------------------------------------------
+// externs: bytes.Buffer, io, zlib (trusted). Ghost model: buflen[b] = unread bytes in buffer b,
+// bufdata[b][k] = k-th unread byte.
+// ---------------------------------------------------------------------------------------------
+
+//@ ghost buflen map[ref]int
+//@ ghost bufdata map[ref]map[int]int
+
+//@ extern bytes.NewBuffer
+//@   params buf
+//@   modifies buflen, bufdata
+//@   ensures result != nil && fresh(result) && buflen[result] == len(buf)
+//@   ensures forall k int :: 0 <= k && k < len(buf) ==> bufdata[result][k] == buf[k]
+//@   ensures forall b ref :: b != result ==> buflen[b] == old(buflen[b]) && bufdata[b] == old(bufdata[b])
+
+//@ extern (*bytes.Buffer).Len
+//@   params b
+//@   pure
+//@   ensures result == buflen[b] && result >= 0
+
+//@ extern (*bytes.Buffer).Bytes
+//@   params b
+//@   pure
+//@   ensures len(result) == buflen[b]
+//@   ensures forall k int :: 0 <= k && k < len(result) ==> result[k] == bufdata[b][k]
+
+//@ extern io.CopyN
+//@   params dst, src, n
+//@   modifies buflen, bufdata
+//@   ensures forall b ref :: b != iref(dst) && b != iref(src) ==> buflen[b] == old(buflen[b]) && bufdata[b] == old(bufdata[b])
+//@   ensures buflen[iref(src)] == old(buflen[iref(src)]) - min(n, old(buflen[iref(src)]))
+//@   ensures buflen[iref(dst)] == old(buflen[iref(dst)]) + min(n, old(buflen[iref(src)]))
+//@   ensures forall k int :: 0 <= k && k < old(buflen[iref(dst)]) ==> bufdata[iref(dst)][k] == old(bufdata[iref(dst)][k])
+//@   ensures forall k int :: 0 <= k && k < min(n, old(buflen[iref(src)])) ==> bufdata[iref(dst)][old(buflen[iref(dst)]) + k] == old(bufdata[iref(src)][k])
+
+//@ extern compress/zlib.NewReader
+//@   params r
+//@   modifies buflen, bufdata
+//@   ensures result1 == nil ==> result0 != nil
+//@   ensures forall b ref :: 0 <= buflen[b] && buflen[b] <= old(buflen[b])
+//@   ensures forall b ref :: b != iref(r) ==> buflen[b] == old(buflen[b]) && bufdata[b] == old(bufdata[b])
+
+//@ extern io.Copy
+//@   params dst, src
+//@   modifies buflen, bufdata
+//@   ensures forall b ref :: b != iref(dst) ==> 0 <= buflen[b] && buflen[b] <= old(buflen[b])
+//@   ensures buflen[iref(dst)] >= old(buflen[iref(dst)])
+//@   ensures forall k int :: 0 <= k && k < old(buflen[iref(dst)]) ==> bufdata[iref(dst)][k] == old(bufdata[iref(dst)][k])
+
+//@ iface io.ReadCloser.Close
+//@   pure
+
+// ---------------------------------------------------------------------------------------------
+// reader.go: block sources, table iteration, seeking
+// ---------------------------------------------------------------------------------------------
+
+//@ spec wfReader(r *Reader) bool = r != nil && r.src != nil && (r.hashSize == 20 || r.hashSize == 32) && (r.version == 1 || r.version == 2) && r.size < 9223372036854775808
+//@ spec recMatches(rec record, typ byte) bool = iref(rec) != 0 && ((typ == 'r' && istype(rec, *RefRecord)) || (typ == 'g' && istype(rec, *LogRecord)) || (typ == 'o' && istype(rec, *objRecord)) || (typ == 'i' && istype(rec, *indexRecord)))
+//@ spec wfTI(i *tableIter) bool = i != nil && wfReader(i.r) && wfBI(i.bi) && typeOK(i.bi.br)
+
+// srcdata[s][k]: the k-th byte of the (immutable) table behind block source s. No function modifies it:
+// a block source returns the same bytes for the same range (assumption: table files are immutable).
+//@ ghost srcdata map[ref]map[int]int
+//@ ghost srcsize map[ref]int
+
+//@ iface BlockSource.ReadBlock
+//@   params off, size
+//@   modifies nothing
+//@   ensures result1 == nil ==> len(result0) <= size || size < 0
+//@   ensures result1 == nil ==> forall k int :: 0 <= k && k < len(result0) ==> result0[k] == srcdata[iref(self)][off + k]
+
+//@ iface BlockSource.Size
+//@   pure
+//@   ensures result < 9223372036854775808
+
+//@ func (*ByteBlockSource).ReadBlock
+//@   props C18
+//@   nopanic
+//@   modifies nothing
+//@   ensures result1 == nil ==> len(result0) <= sz || sz < 0
+
+//@ func (*ByteBlockSource).Size
+//@   props C18
+//@   nopanic
+//@   pure
+//@   ensures result < 9223372036854775808
+
+//@ func (*Reader).getBlock
+//@   props C18
+//@   requires wfReader(r)
+//@   nopanic
+//@   modifies nothing
+//@   ensures result1 == nil ==> len(result0) <= sz
+//@   ensures result1 == nil ==> forall k int :: 0 <= k && k < len(result0) ==> result0[k] == srcdata[iref(r.src)][off + k]
+
+//@ func extractBlockSize
+//@   props C18
+//@   requires version == 1 || version == 2
+//@   nopanic
+//@   pure
+//@   ensures err == nil ==> size < 16777216 && (typ == 'g' || typ == 'i' || typ == 'r' || typ == 'o')
+//@   ensures err == nil && off == 0 ==> len(block) >= (version == 1 ? 28 : 32) && typ == block[version == 1 ? 24 : 28]
+//@   ensures err == nil && off != 0 ==> len(block) >= 4 && typ == block[0]
+
+//@ func (*Reader).newBlockReader
+//@   props C18
+//@   requires wfReader(r)
+//@   nopanic
+//@   modifies buflen, bufdata
+//@   ensures err == nil && br != nil ==> fresh(br) && wfBR(br) && typeOK(br)
+//@   ensures[wantTyp] err == nil && br != nil && wantTyp != 0 ==> br.block[br.headerOff] == wantTyp
+//@   ensures err != nil ==> br == nil
+
+//@ func (*tableIter).nextBlock
+//@   props C18
+//@   requires wfTI(i)
+//@   nopanic
+//@   modifies buflen, bufdata, i.blockOff, i.bi.ALLFIELDS, i.finished
+//@   ensures result1 == nil ==> wfTI(i)
+
+//@ func (*tableIter).nextInBlock
+//@   props C18
+//@   requires wfTI(i) && recMatches(rec, i.typ)
+//@   nopanic
+//@   modifies i.bi.lastKey, i.bi.nextOffset, rec
+//@   ensures wfTI(i)
+
+//@ func (*tableIter).Next
+//@   props C18
+//@   requires wfTI(i) && recMatches(rec, i.typ)
+//@   nopanic
+//@   modifies buflen, bufdata, i.blockOff, i.bi.ALLFIELDS, i.finished, rec
+//@   ensures result1 == nil ==> wfTI(i)
+//@   loop 1 invariant wfTI(i) && recMatches(rec, i.typ)
+
+//@ func (*Reader).tabIterAt
+//@   props C18
+//@   requires wfReader(r)
+//@   nopanic
+//@   modifies buflen, bufdata
+//@   ensures result1 == nil && result0 != nil ==> fresh(result0) && wfTI(result0) && (wantTyp == 0 || result0.typ == wantTyp)
+
+//@ func (*Reader).start
+//@   props C18
+//@   requires wfReader(r)
+//@   nopanic
+//@   modifies buflen, bufdata
+//@   ensures result1 == nil && result0 != nil ==> fresh(result0) && wfTI(result0) && ((index && result0.typ == 'i') || (!index && (typ == 0 || result0.typ == typ)))
+
+//@ func (*Reader).seekLinear
+//@   props C18
+//@   requires wfReader(r) && wfTI(tabIter) && recMatches(want, tabIter.typ)
+//@   nopanic
+//@   modifies buflen, bufdata, tabIter.ALLFIELDS
+//@   ensures result1 == nil ==> wfTI(tabIter) && tabIter.typ == old(tabIter.typ)
+//@   ensures result0 ==> result1 == nil
+//@   loop 1 invariant wfTI(tabIter) && tabIter.typ == old(tabIter.typ) && recMatches(rec, tabIter.typ) && fresh(iref(rec))
+
+//@ spec recAny(rec record) bool = iref(rec) != 0 && (istype(rec, *RefRecord) || istype(rec, *LogRecord) || istype(rec, *objRecord) || istype(rec, *indexRecord))
+//@ spec typOf(rec record) byte = istype(rec, *RefRecord) ? 'r' : (istype(rec, *LogRecord) ? 'g' : (istype(rec, *objRecord) ? 'o' : 'i'))
+
+//@ func (*Reader).seek
+//@   props C18
+//@   requires wfReader(r) && recAny(rec)
+//@   nopanic
+//@   modifies buflen, bufdata
+//@   ensures result1 == nil && result0 != nil ==> fresh(result0)
+//@   ensures result1 == nil && result0 != nil ==> wfTI(result0)
+//@   ensures result1 == nil && result0 != nil ==> result0.typ == typOf(rec)
+
+//@ func (*Reader).seekIndexed
+//@   props C18
+//@   requires wfReader(r) && recAny(want)
+//@   nopanic
+//@   modifies buflen, bufdata
+//@   ensures result1 == nil && result0 != nil ==> fresh(result0) && wfTI(result0) && result0.typ == typOf(want)
+//@   loop 1 invariant wfTI(idxIter) && idxIter.typ == 'i' && fresh(idxIter)
+
+//@ func (*Reader).seekRecord
+//@   props C18
+//@   requires wfReader(r) && recAny(rec)
+//@   nopanic
+//@   modifies buflen, bufdata
+//@   ensures result1 == nil ==> result0 != nil
+
+//@ func (*Reader).SeekRef
+//@   props C18
+//@   requires wfReader(r)
+//@   nopanic
+//@   modifies buflen, bufdata
+
+//@ func (*Reader).SeekLog
+//@   props C18
+//@   requires wfReader(r)
+//@   nopanic
+//@   modifies buflen, bufdata
+
+//@ func (*Reader).RefsFor
+//@   props C18
+//@   requires wfReader(r) && r.objectIDLen >= 0
+//@   nopanic
+//@   modifies buflen, bufdata
+
+//@ func (*Reader).refsForIndexed
+//@   props C18
+//@   requires wfReader(r) && r.objectIDLen >= 0
+//@   nopanic
+//@   modifies buflen, bufdata
+
+//@ func (*indexedTableRefIter).nextBlock
+//@   props C18
+//@   requires i != nil && wfReader(i.r)
+//@   nopanic
+//@   modifies buflen, bufdata, i.offsets, i.cur.ALLFIELDS, i.finished
+//@   ensures result == nil && (old(len(i.offsets)) > 0 || old(wfBI(i.cur))) ==> wfBI(i.cur)
+
+//@ func (*indexedTableRefIter).Next
+//@   props C18
+//@   requires i != nil && wfReader(i.r) && wfBI(i.cur) && istype(rec, *RefRecord) && iref(rec) != 0
+//@   nopanic
+//@   modifies buflen, bufdata, i.offsets, i.cur.ALLFIELDS, i.finished, rec
+//@   loop 1 invariant i != nil && wfReader(i.r) && wfBI(i.cur) && ref != nil && allocated(ref)
